@@ -10,9 +10,9 @@
 #define NCONS 2
 enum { T_CHAR, T_UINT, T_INT, T_DBL, T_NAME, T_EOL };
 enum { CB_OBJ = 1, CB_ACON, CB_LCON, CB_CEXPR_BEGIN, CB_CEXPR_END, CB_COMPL, CB_LINOBJ, CB_LINCON, CB_TERM, CB_VARBND, CB_CONBND, CB_INIVAL, CB_INIDUAL, CB_COLSIZE,
-       CB_FUNC, CB_SUFFIX, CB_SUFVAL, CB_NUMBER, CB_VARREF, CB_CEXPRREF, CB_UNARY, CB_BINARY, CB_RELATIONAL, CB_CALL, CB_CALLARG, CB_END, CB_BOOL, CB_NOT };
-#define MAXT 48
-#define MAXE 40
+       CB_FUNC, CB_SUFFIX, CB_SUFVAL, CB_NUMBER, CB_VARREF, CB_CEXPRREF, CB_UNARY, CB_BINARY, CB_RELATIONAL, CB_CALL, CB_CALLARG, CB_END, CB_BOOL, CB_NOT, CB_BEGIN_ITER, CB_ARG, CB_END_ITER, CB_PL_BEGIN, CB_PL_SLOPE, CB_PL_BREAK, CB_PL_END, CB_IF, CB_BINLOGICAL };
+#define MAXT 64
+#define MAXE 48
 static struct { u32 kind; s64 iv; double dv; } tk[MAXT]; static u32 ntk;
 static struct { u32 what; s64 a, b; double d; int chk_a, chk_b, chk_d; } ex[MAXE]; static u32 nex, iex;
 static int expect_bad, cb_bad; static const char *cb_msg;
@@ -38,6 +38,18 @@ static void e_(u32 what, s64 a, int ca, s64 b, int cb, double d, int cd) { if (e
 /* a reference "v <i>": variable or common expression */
 static void s_ref(void) { t_char('v'); s64 i = t_index(NVARS + num_cexprs); t_eol(); if (i < NVARS) E_A(CB_VARREF, i); else E_A(CB_CEXPRREF, i - NVARS); }
 static void s_num(void) { t_char('n'); double d = t_dbl(); t_eol(); E_AD(CB_NUMBER, 0, d); }
+/* expressions with an announced number of arguments: sum / min of 3 references, call f(ref, number), count of two comparisons,
+ * piecewise-linear term with 2 breakpoints, if-then-else, logical or */
+static void s_sum(int op, int tag) { t_char('o'); t_uint(op); t_eol(); t_uint(3); t_eol(); E_AB(CB_BEGIN_ITER, tag, 3); for (u32 i = 0; i < 3; i++) { s_ref(); E_A(CB_ARG, tag); } E_A(CB_END_ITER, tag); }
+static void s_call(void) { t_char('f'); s64 f = t_index(num_funcs); t_uint(2); t_eol(); E_AB(CB_CALL, f, 2); s_ref(); E_A(CB_ARG, 3); s_num(); E_A(CB_ARG, 3); E_A(CB_END_ITER, 3); }
+static void s_rel(void) { t_char('o'); t_uint(22); t_eol(); s_ref(); s_num(); E_ANY(CB_RELATIONAL); }
+static void s_pl(void) { t_char('o'); t_uint(64); t_eol(); t_uint(3); t_eol(); E_A(CB_PL_BEGIN, 2);
+  for (u32 i = 0; i < 2; i++) { t_char('n'); double sl = t_dbl(); t_eol(); E_AD(CB_PL_SLOPE, 0, sl); t_char('n'); double br = t_dbl(); t_eol(); E_AD(CB_PL_BREAK, 0, br); }
+  t_char('n'); double sl = t_dbl(); t_eol(); E_AD(CB_PL_SLOPE, 0, sl); t_char('v'); s64 i = t_index(NVARS + num_cexprs); t_eol(); if (i < NVARS) E_A(CB_VARREF, i); else E_A(CB_CEXPRREF, i - NVARS); E_ANY(CB_PL_END); }
+static void s_if(void) { t_char('o'); t_uint(35); t_eol(); s_rel(); s_ref(); s_num(); E_ANY(CB_IF); }
+static void s_or(void) { t_char('o'); t_uint(20); t_eol(); s_rel(); s_rel(); E_ANY(CB_BINLOGICAL); }
+static void seg_Cx(int what) { t_char('C'); s64 i = t_index(NCONS); t_eol(); if (what == 0) s_sum(54, 1); else if (what == 1) s_sum(11, 2); else if (what == 2) s_call(); else if (what == 3) s_pl(); else s_if(); E_A(CB_ACON, i); }
+static void seg_Lx(void) { t_char('L'); s64 i = t_index(num_lcons); t_eol(); s_or(); E_A(CB_LCON, i); }
 static void seg_b(void) { t_char('b'); t_eol();
   for (u32 v = 0; v < NVARS; v++) { t_char(v == 0 ? '0' : '2'); double lo = t_dbl(); double hi = INF_; if (v == 0) hi = t_dbl(); t_eol(); E_ABD(CB_VARBND, v, 0, lo); E_ABD(CB_VARBND, v, 1, hi); } }
 static void seg_C(void) { t_char('C'); s64 i = t_index(NCONS); t_eol(); s_ref(); E_A(CB_ACON, i); }
@@ -104,6 +116,8 @@ void h_segments(void) {
     case 10: seg_b(); seg_x(); break;           case 11: seg_b(); seg_d(); break;         case 12: seg_S(0); seg_b(); break;
     case 13: seg_b(); seg_S(5); break;          case 14: seg_b(); seg_S(2); break;        case 15: seg_b(); seg_S(7); break;
     case 16: seg_V(); seg_C(); seg_b(); break;  case 17: seg_b(); seg_J(); seg_r(); break;
+    case 18: seg_Cx(0); seg_b(); break;         case 19: seg_b(); seg_Cx(1); break;       case 20: seg_Cx(2); seg_b(); break;
+    case 21: seg_b(); seg_Cx(3); break;         case 22: seg_Cx(4); seg_b(); break;       case 23: seg_b(); seg_Lx(); break;
     default: seg_b(); break;
   }
   E_ANY(CB_END);
